@@ -13,6 +13,8 @@ CONSTANTS
   MaxObjs = 6
   Tag = "C04F"
   SoftTargets <- FSoft
+  HardTargets <- AllPaths
+  SureCases = FALSE
   OnlyLastMayFail = TRUE
 SPECIFICATION LSpec
 INVARIANTS TypeOK WellFormed OnlyGroupsHaveLinks
